@@ -48,6 +48,14 @@ def single_worlds(tier):
                 for haps in hapsets:
                     for tag in ("PS", "HP") if (k <= 4 or T or n == 1) else ("PS",):
                         yield mk_single(seed, k, chosen, haps, 1), dict(tag=tag), None
+    # coordinates above one million (seven-digit phase set ids), with the PS tag already declared in the input header -
+    # as Integer, and with the non-standard type Float (which must be refused, or else handled without losing digits)
+    for chosen in (((0, 1), (2, 3)), ((0, 1), (1, 2), (2, 3)), ((0, 2), (1, 3))):
+        for ps_type in ("Integer", "Float"):
+            for tag in ("PS", "HP"):
+                w = mk_single(seed, 4, chosen, tuple(i % 2 for i in range(len(chosen))), 1, base=1234400)
+                w["ps_header_type"] = ps_type
+                yield w, dict(tag=tag), None
     # selection-active slice: three copies of each read, tiny coverage cap
     for k in (3, 4) + ((5,) if T else ()):
         subs = subsets(k)
@@ -59,9 +67,9 @@ def single_worlds(tier):
                         yield mk_single(seed, k, chosen, tuple((i + 1) % 2 for i in range(n)), 2), dict(tag="HP", max_coverage=cap), None
 
 
-def mk_single(seed, k, chosen, haps, copies):
-    vs = [{"pos": 60 + 40 * i, "kind": "SNV", "len": 1} for i in range(k)]
-    world = {"seed": seed, "chroms": [{"name": "chrA", "length": 60 + 40 * k + 60, "variants": vs}], "samples": ["S1"], "haps": {"S1": {"chrA": [[0, 1] if i % 2 == 0 else [1, 0] for i in range(k)]}}, "reads": []}
+def mk_single(seed, k, chosen, haps, copies, base=0):
+    vs = [{"pos": base + 60 + 40 * i, "kind": "SNV", "len": 1} for i in range(k)]
+    world = {"seed": seed, "chroms": [{"name": "chrA", "length": base + 60 + 40 * k + 60, "variants": vs}], "samples": ["S1"], "haps": {"S1": {"chrA": [[0, 1] if i % 2 == 0 else [1, 0] for i in range(k)]}}, "reads": []}
     for sub, h in zip(chosen, haps):
         segs = segments(sub)
         world["reads"].append({"sample": "S1", "chrom": "chrA", "hap": h, "segs": [[a, b, 5, 5] for a, b in segs], "link": "pair" if len(segs) == 2 and (sub[0] + h) % 2 == 0 else "N", "n": copies})
@@ -227,7 +235,13 @@ def judge(inst):
     rl = os.path.join(d, "readlist.tsv")
     if not world["reads"]:
         kw["phase_inputs"] = []  # an empty BAM is rejected; without reads there is no alignment file
+    if world.get("ps_header_type"):
+        txt = open(paths["vcf"]).read()
+        with open(paths["vcf"], "w") as f:
+            f.write(txt.replace("##FORMAT=<ID=GT", '##FORMAT=<ID=PS,Number=1,Type=%s,Description="Phase set">\n##FORMAT=<ID=GT' % world["ps_header_type"], 1))
     parsed, traces, err = pw.run_phase(paths, d, read_list_filename=rl, **kw)
+    if err and world.get("ps_header_type") == "Float" and "non-standard type" in err:
+        return [], True, False  # refused with the message meant for non-Integer PS declarations
     if err:
         return [V("error", f"whatshap phase failed: {err}")], False, False
     nontrivial = cut = False
@@ -294,6 +308,9 @@ def judge(inst):
             for p in ps:
                 if p not in comp:
                     viols.append(V("phased-inaccessible", f"sample {s}: position {p + 1} is phased but not covered by any read used for phasing"))
+                    continue
+                if not isinstance(phased[p], int):
+                    viols.append(V("name", f"sample {s}: variant at {p + 1} carries the phase set id {phased[p]!r}, which is not an integer position"))
                     continue
                 if phased[p] != comp[p] + 1:
                     viols.append(V("name", f"sample {s}: variant at {p + 1} has phase set {phased[p]}, its read-connected component starts at {comp[p] + 1} (reads {reads}, master {master})"))
